@@ -385,7 +385,8 @@ impl<'a> OpenResponsesSsePipe<'a> {
     }
 
     async fn push_sse_str(&mut self, chunk: &str) -> bool {
-        let parsed = self.decoder.push(chunk);
+        let mut parsed = self.decoder.push(chunk);
+        truncate_after_done(&mut parsed);
         if parsed.is_empty() {
             return false;
         }
@@ -469,7 +470,8 @@ impl<'a> OpenResponsesSsePipe<'a> {
     }
 
     async fn finish(&mut self) -> bool {
-        let parsed = self.decoder.finish();
+        let mut parsed = self.decoder.finish();
+        truncate_after_done(&mut parsed);
         if parsed.is_empty() {
             return false;
         }
@@ -493,6 +495,17 @@ impl<'a> OpenResponsesSsePipe<'a> {
         *self.seq += frame_count as u64;
 
         saw_done
+    }
+}
+
+/// `[DONE]` is terminal: events that follow it in the same chunk are dropped, exactly as they
+/// are when they arrive in a later chunk (the stream loop stops reading after `[DONE]`).
+fn truncate_after_done(parsed: &mut Vec<rip_provider_openresponses::ParsedEvent>) {
+    if let Some(done_idx) = parsed
+        .iter()
+        .position(|event| event.kind == ParsedEventKind::Done)
+    {
+        parsed.truncate(done_idx + 1);
     }
 }
 
